@@ -7,7 +7,7 @@ record line:  <phase> <idx> <sub> <value bits, 16 hex digits> <mode>:<site> <pre
   mode p = printf build helper/result text: must be EXACTLY the value correctly rounded to <precision> significant digits
            (round-half-even on the exact binary value, the other neighbour accepted only at an exact tie) in %g layout
   mode d = SCPI_dtostre text: must parse to a decimal within ONE unit of the <precision>-th significant digit of the
-           correctly rounded decimal, must not denote zero for a non-zero value; 2..3 units = known accuracy class
+           correctly rounded decimal, must not denote zero for a non-zero value; 2..6 units at precision 15 = known accuracy class
 
 No float(), no float formatting, no decimal module: the value is rebuilt from the bit pattern as mant * 2^exp2 and all
 comparisons are integer comparisons.  The %g layout rule below is written from C11 7.21.6.1 (style e iff X < -4 or
@@ -16,7 +16,8 @@ X >= P, trailing zeros and a bare point removed, exponent sign and at least two 
 import sys
 import re
 
-ACC_MAX_UNITS = 3
+ACC_MAX_UNITS = 6   # known accuracy class: precision 15 only, 2..6 units of the 15th digit (see checks/c16_floattext.c)
+ACC_PRECISION = 15
 
 _p10 = {}
 
@@ -113,6 +114,10 @@ def gfmt(neg, q, P, X):
     else:
         out += "0." + "0" * (-X - 1) + d
     return out
+
+
+def reftxt(rd, X):
+    return "%s%s%se%d" % (rd[0], "." if len(rd) > 1 else "", rd[1:], X)
 
 
 NUM_RE = re.compile(r"^(-?)([0-9]+)(?:\.([0-9]+))?(?:[eE]([+-]?)([0-9]{1,6}))?$")
@@ -250,7 +255,7 @@ def check_record(o, rec):
         cands = [(lo, Xlo) if where < 0 else (hi, Xhi)]
     q, X = cands[0]
     rd = str(q)
-    rtxt = "%s.%se%d" % (rd[0], rd[1:], X)
+    rtxt = reftxt(rd, X)
     if T["m"] == 0:
         o.violation(rec, "C16:dtostre-trim-drops-digits", what + ": no significant digit left (correctly rounded: %s)" % rtxt)
         return
@@ -264,7 +269,7 @@ def check_record(o, rec):
             d = d2
             q, X = cands[1]
             rd = str(q)
-            rtxt = "%s.%se%d" % (rd[0], rd[1:], X)
+            rtxt = reftxt(rd, X)
     o.cnt("post.dtostre.dist.%s" % (d if d < 10 else "10plus"))
     if d <= 1:
         if d == 1 and T["nsig"] < len(strip_zeros(rd)):
@@ -275,7 +280,7 @@ def check_record(o, rec):
     # 2..3 units and cut short: same shape as a low digit generator whose digits end in zeros; the input shape decides the label
     body = text[1:] if text.startswith("-") else text
     leadzero = (not T["has_exp"]) and body.startswith("0.")
-    if d <= ACC_MAX_UNITS and not (prefix and leadzero):
+    if p == ACC_PRECISION and d <= ACC_MAX_UNITS and not (prefix and leadzero):
         o.cnt("post.acc.p%02d" % p)
         o.violation(rec, "C16:dtostre-ecvt-accuracy", what + ": well formed but %d units of digit %d away from the correctly rounded %s" % (d, p, rtxt))
     elif prefix:
@@ -317,7 +322,11 @@ def main():
         for k in o.order:
             g.write(o.viol[k] + "\n")
         g.write("violations %d\n" % o.nviol)
-        g.write("done\n")
+        bad = o.counters.get("post.unreadable_lines", 0)
+        if bad:
+            print("c16_decimal: %d unreadable record lines in %s" % (bad, rec_path))  # no 'done': the driver reports the run inconclusive
+        else:
+            g.write("done\n")
     import os
     os.replace(tmp, out_path)
     return 0
